@@ -23,7 +23,7 @@ def run(repo, chk):
     R = Rules(repo, chk)
     refcheck.run_all(R, repo, chk, 'RECUR', 'assign_ref.py', WHAT, skip=('merge_lines', 'filter_list'))
     R.run('ATOMS', atoms, repo, chk)
-    R.run('PROV', prov, repo, Soft(chk))
+    R.run('PROV', prov, repo, Soft(chk), soft_for=[H + ':assign_lines_to_regions'])
     R.run('TYPESTATE', typestate, repo, chk)
     chk.expect('RECUR', 4)
     chk.expect('ATOMS', 5)
@@ -92,12 +92,17 @@ def _check_filter(fi, chk, tag):
     roles = _roles(fi)
     need(len(roles) >= 2, '%s: min/max arrays of the row-fill idiom not found' % fi.name)
     # the candidate formula: last assignment to `candidates` before its use must be logical_not(F) with F monotone over atoms
-    assigns = [s for s in walk_shallow(fi.node) if isinstance(s, ast.Assign) and isinstance(s.targets[0], ast.Name) and
-               any(isinstance(c, ast.Compare) for c in ast.walk(s.value)) and any(isinstance(x, ast.Name) and x.id in roles for x in ast.walk(s.value))]
-    need(assigns, '%s: pre-filter formula not found' % fi.name)
-    f = assigns[0]
-    var = f.targets[0].id
-    atoms_ = [c for c in ast.walk(f.value) if isinstance(c, ast.Compare)]
+    # the variable whose nonzero() entries are iterated is the candidate matrix; its definitions, with temporaries inlined
+    nz = [c for c in ast.walk(fi.node) if isinstance(c, ast.Call) and isinstance(c.func, ast.Attribute) and c.func.attr == 'nonzero' and isinstance(c.func.value, ast.Name)]
+    need(nz, '%s: candidate matrix (.nonzero()) not found' % fi.name)
+    var = nz[0].func.value.id
+    defs = [s for s in walk_shallow(fi.node) if isinstance(s, ast.Assign) and isinstance(s.targets[0], ast.Name) and s.targets[0].id == var]
+    need(defs, '%s: pre-filter formula not found' % fi.name)
+    vals = [fi.flow.inline(s.value, s, stop={var} | set(roles)) for s in defs]
+    cmp_defs = [(s, v) for s, v in zip(defs, vals) if any(isinstance(c, ast.Compare) for c in ast.walk(v))]
+    need(cmp_defs, '%s: pre-filter formula not found' % fi.name)
+    f, fval = cmp_defs[0]
+    atoms_ = [c for c in ast.walk(fval) if isinstance(c, ast.Compare)]
     for c in atoms_:
         ok, why = _atom(c, roles)
         chk.ob('ATOMS', fi, c, 'pre-filter comparison is a separating-axis atom: %s' % (why if ok else ' '.join(src(c).split())), ok,
@@ -105,17 +110,15 @@ def _check_filter(fi, chk, tag):
                construct='%s atom %s' % (tag, ' '.join(src(c).split())))
     # monotone structure + exactly one negation
     mono = True
-    for n in ast.walk(f.value):
+    for n in ast.walk(fval):
         if isinstance(n, ast.Call):
             nm = call_name(n) or ''
             if nm not in ('np.logical_and', 'np.logical_or'):
                 mono = False
         elif isinstance(n, ast.UnaryOp) and isinstance(n.op, (ast.Not, ast.Invert)):
             mono = False
-    negs = [s for s in walk_shallow(fi.node) if isinstance(s, ast.Assign) and isinstance(s.targets[0], ast.Name) and s.targets[0].id == var and
-            isinstance(s.value, ast.Call) and (call_name(s.value) or '') == 'np.logical_not' and src(s.value.args[0]) == var]
-    inv = [s for s in walk_shallow(fi.node) if isinstance(s, ast.Assign) and isinstance(s.targets[0], ast.Name) and s.targets[0].id == var and
-           isinstance(s.value, ast.UnaryOp) and isinstance(s.value.op, ast.Invert)]
+    negs = [v for v in vals if isinstance(v, ast.Call) and (call_name(v) or '') == 'np.logical_not' and v.args and src(v.args[0]) == var]
+    inv = [v for v in vals if isinstance(v, ast.UnaryOp) and isinstance(v.op, ast.Invert) and src(v.operand) == var]
     chk.ob('ATOMS', fi, f, 'the reject formula combines atoms with and/or only and is negated exactly once', mono and len(negs) + len(inv) == 1,
            construct='%s formula shape' % tag)
 
@@ -317,9 +320,9 @@ def typestate(repo, chk):
         mine = [(k, v) for k, v in found.items() if k[0] == key]
         if not mine:
             chk.ob('TYPESTATE', fi, c, 'region list handed to assign_lines_to_regions is fresh or cleared on every path (%d flag combinations)' % (2 ** len(flags)), True,
-                   construct='assign call %s' % arg_s)
+                   construct='assign call #%d' % sorted(calls, key=lambda x: (x.lineno, x.col_offset)).index(c))
         for (k, kind), (cc, msg, envs) in mine:
             common = {f: envs[0][f] for f in flags if all(e[f] == envs[0][f] for e in envs)}
             chk.ob('TYPESTATE', fi, c, 'region list handed to assign_lines_to_regions is fresh or cleared on every path', False,
                    msg + ' when %s; line ids are region id + per-call line index, so a second pass over the same regions repeats ids' % common,
-                   construct='assign call %s: %s' % (arg_s, kind))
+                   construct='assign call #%d: %s' % (sorted(calls, key=lambda x: (x.lineno, x.col_offset)).index(c), kind))
